@@ -141,7 +141,7 @@ def handle : Handler := fun m j =>
       let s0 := init cfg
       let (obs, stuck, sEnd) := runObs cfg s0 sched 0 #[obsJ cfg s0 false]
       return obj [("obs", Json.arr obs), ("stuck", match stuck with | some k => toJson k | none => Json.null),
-                  ("final", obsJ cfg sEnd true), ("wf", toJson (wfb cfg && layoutb cfg)),
+                  ("final", obsJ cfg sEnd true), ("wf", toJson (wfb cfg && layoutb cfg && preallocb cfg)),
                   ("serial", Json.arr ((serialFiles cfg).map natsJ).toArray)]
   | "writern.cover" => some do
       let cfg ← getCfg j
@@ -151,7 +151,7 @@ def handle : Handler := fun m j =>
       return obj [("scheds", Json.arr (c.scheds.map fun sc => Json.arr (sc.map labelJ).toArray)),
                   ("states", toJson c.seen.size), ("edges", toJson c.edges),
                   ("deadlocks", toJson c.deadlocks), ("truncated", toJson c.truncated),
-                  ("wf", toJson (wfb cfg && layoutb cfg))]
+                  ("wf", toJson (wfb cfg && layoutb cfg && preallocb cfg))]
   | _ => none
 
 end IrVerif.Drive.WriterN
